@@ -69,13 +69,17 @@ const c16Source = `{namespace d autoescape="false"}
 /** @param x
  * @param n */
 {template .truncate_on autoescape="true"}{$x|truncate:$n}{/template}
+/** @param x
+ * @param n */
+{template .msg_twins}{msg desc="d"}{$x|truncate:$n}|{$x|truncate:100000}|{$x|insertWordBreaks:$n}|{$x|insertWordBreaks:100000}|{$x|truncate:$n,false}{/msg}{/template}
 `
 
 var (
-	c16Once sync.Once
-	c16Tofu *soyhtml.Tofu
-	c16Err  string
-	c16JS   bool
+	c16Once     sync.Once
+	c16Tofu     *soyhtml.Tofu
+	c16Identity *fakeBundle
+	c16Err      string
+	c16JS       bool
 )
 
 func c16Init() {
@@ -86,6 +90,7 @@ func c16Init() {
 			return
 		}
 		c16Tofu = soyhtml.NewTofu(reg)
+		c16Identity = identityCatalogue(reg)
 		e, err := engine()
 		if err != nil {
 			c16Err = "no JavaScript engine: " + err.Error()
@@ -481,6 +486,18 @@ func init() {
 				seenN[n] = true
 				if res := c16One(ctx, e, d, val, vs, n, r.Bool(), i, nsys); res.Verdict != fw.Held {
 					return res
+				}
+				if d.tmpl == "truncate" && n >= 1 {
+					// the same directives with different arguments side by side in one message, rendered from the source and
+					// from a catalogue holding the message's own text: each print keeps its own arguments
+					dd := map[string]ref.Value{"x": val, "n": ref.Int(int64(n))}
+					plain, err1 := render(c16Tofu, "d.msg_twins", dd, nil, nil)
+					under, err2 := render(c16Tofu, "d.msg_twins", dd, nil, c16Identity)
+					ctx.Obs("msg_twins_compared", 1)
+					if (err1 == nil) != (err2 == nil) || plain != under {
+						return fw.Result{Verdict: fw.Violated, Key: "go:directive-arguments-mixed-up-in-message", Case: map[string]interface{}{"value": vs, "n": n},
+							Msg: fmt.Sprintf("value %q, n=%d: from the source %q (err %v), from a catalogue that holds the same text %q (err %v)", fw.Trim(vs, 80), n, fw.Trim(plain, 200), err1, fw.Trim(under, 200), err2)}
+					}
 				}
 			}
 			return fw.Result{Verdict: fw.Held}
